@@ -121,12 +121,45 @@ Fixpoint recurse0 (fuel : nat) (k : str -> wres) (read_head w : str) (buf : str)
           else
             let max := atoi rest in
             let rest1 := skip_digits rest in
+            (* const bool slash = *read_head == '/'; if(slash) ++read_head;
+               snprintf(write_head, 32, slash ? "%d/" : "%d", i) *)
+            let slash := hd0 rest1 =? 47 in
+            let rest2 := if slash then tl rest1 else rest1 in
+            let sl : str := if slash then [47] else [] in
+            (fix each (l : list nat) (out : list report) (buf : str) : wres :=
+               match l with
+               | [] => WOk out buf
+               | i :: r =>
+                   match recurse0 f k rest2 (w ++ lit ++ dec (Z.of_nat i) ++ sl) buf with
+                   | WOk o b => each r (out ++ o) b
+                   | WFail => WFail
+                   end
+               end) (seq 0 (Z.to_nat max)) [] buf
+      | None =>
+          let w1 := w ++ upto_colon read_head in
+          let w2 := if last_is_slash w1 then w1 else w1 ++ [47] in
+          k w2
+      end
+  end.
+
+(* before the commit "fix: walk_ports wrote a '/' behind every index ...": the '/'
+   was written whether or not the name has one (kept for WalkRegress.v) *)
+Fixpoint recurse0_pinned (fuel : nat) (k : str -> wres) (read_head w : str) (buf : str) : wres :=
+  match fuel with
+  | O => WFail
+  | S f =>
+      match split_hash1 read_head with
+      | Some (lit, rest) =>
+          if has_char 58 lit then WFail       (* a ':' in front of a '#': outside the modelled names *)
+          else
+            let max := atoi rest in
+            let rest1 := skip_digits rest in
             let rest2 := match rest1 with c :: t => if c =? 47 then t else rest1 | [] => rest1 end in
             (fix each (l : list nat) (out : list report) (buf : str) : wres :=
                match l with
                | [] => WOk out buf
                | i :: r =>
-                   match recurse0 f k rest2 (w ++ lit ++ dec (Z.of_nat i) ++ [47]) buf with
+                   match recurse0_pinned f k rest2 (w ++ lit ++ dec (Z.of_nat i) ++ [47]) buf with
                    | WOk o b => each r (out ++ o) b
                    | WFail => WFail
                    end
@@ -167,6 +200,54 @@ Definition self_toggle (t : list port) (buf : str) : option (nat * str) :=
       end
   end.
 
+(* port_is_enabled for a sub-tree port whose 'enabled by' names a port INSIDE it
+   ("name/toggle"): for( ; *n && *n == *e && *n != '/' && *e != '/'; ++n, ++e);
+   subport = ( *e == '/' && *n == '/').  Some (the part of e behind that '/') *)
+Fixpoint subport_split (n e : str) : option str :=
+  match n, e with
+  | c :: n', d :: e' =>
+      if (c =? 47) || (d =? 47) then (if (c =? 47) && (d =? 47) then Some e' else None)
+      else if c =? d then subport_split n' e' else None
+  | _, _ => None
+  end.
+
+(* when such a sub-tree is disabled the walker is still applied to the enabling
+   port: ask_port = port.ports[toggle], at collapsePath(name_buffer ++ "../" ++ enable_port) *)
+Definition sub_toggle (q : port) (b : str) : option (nat * str) :=
+  match q with
+  | Port qn (Some m) (Some sub) =>
+      match meta m with
+      | Some s =>
+          match lookup s enabled_by with
+          | Some (Some v) =>
+              match subport_split qn v with
+              | Some e' =>
+                  match index_op sub e', collapse_str (b ++ [46; 46; 47] ++ v) with
+                  | Some j, Some (_, a) => Some (j, a)
+                  | _, _ => None
+                  end
+              | None => None
+              end
+          | _ => None
+          end
+      | None => None
+      end
+  | _ => None
+  end.
+
+(* what is reported for a sub-tree that is not visited *)
+Definition skipped_reports (rt : option oracle) (ids : list nat) (i : nat) (q : port) (b : str) : list report :=
+  match rt with
+  | Some o =>
+      if negb (o_null o b) && o_disabled o b then
+        match sub_toggle q b with
+        | Some (j, a) => [(ids ++ [i; j], a)]
+        | None => []
+        end
+      else []
+  | None => []
+  end.
+
 Section Table.
   (* walk_sub = walk_ports on a port's own sub-table (the recursion of walk_port below) *)
   Variable walk_sub : port -> list nat -> str -> wres.
@@ -185,7 +266,7 @@ Section Table.
                          | Some o => o_null o b || o_disabled o b
                          | None => false
                          end in
-             if skip then WOk [] b else walk_sub q (ids ++ [i]) b)
+             if skip then WOk (skipped_reports rt ids i q b) b else walk_sub q (ids ++ [i]) b)
           qn buf buf
     | Port qn _ None =>
         if has_char 35 qn then
